@@ -1,7 +1,7 @@
 """C12 - the token tree is well-formed and its generic views are faithful (E1 inputs + invariant checker)."""
 import json
 import itertools
-from mc import core, configs, spaces
+from mc import core, configs, spaces, trees
 
 ID = 'C12'
 TECHNIQUE = ('exhaustive enumeration of texts over the line alphabet, of inline words placed in four block contexts and of '
@@ -28,7 +28,7 @@ BLOCK_RAW = {'BlockCode', 'CodeFence', 'HtmlBlock'}
 def describe(tier):
     b = BOUNDS[tier]
     return dict(line_alphabet=L, max_lines=b['lines'], inline_alphabet=INLINE, inline_len=b['inline'], contexts=CONTEXTS,
-                edit1=bool(b['edit']), token_sets=TOKEN_SETS)
+                edit1=bool(b['edit']), token_sets=TOKEN_SETS, generated_trees_max_nodes=3 if tier == 'quick' else 4)
 
 
 def jobs(tier):
@@ -42,6 +42,10 @@ def jobs(tier):
         js.append(('inline', j[1], j[2]))
     if b['edit']:
         js += [('edit', lo, lo + 8) for lo in range(0, 652, 8)]
+    nt = 3 if tier == 'quick' else 4
+    for n in range(1, nt + 1):
+        ns = 1 if n < 3 else (16 if n == 3 else 128)
+        js += [('trees', n, 2 if tier == 'quick' else 3, sh, ns) for sh in range(ns)]
     return js
 
 
@@ -249,6 +253,12 @@ def run_job(job):
             for ctx in CONTEXTS:
                 run_text(r, ctx.format(w=word))
         r.sample(dict(space='inline', text=CONTEXTS[2].format(w='*[a](b)*')), 1)
+    elif kind == 'trees':
+        _, n, depth, sh, ns = job
+        for i, blocks in enumerate(trees.all_docs(n, depth)):
+            if i % ns == sh:
+                run_text(r, trees.to_markdown(blocks, trees.DEFAULTS)[0])
+        r.sample(dict(space='generated trees', nodes=n), 1)
     elif kind == 'edit':
         from checks import c02
         for ex in c02.corpus()[job[1]:job[2]]:
